@@ -357,7 +357,11 @@ fn image_calls(d: &Value, out: &mut Vec<Value>) {
                               Rectangle::new(Point::new(w + 7, h + 9), Size::new(3, 3)), Rectangle::new(Point::new(w, 0), Size::new(1, 1)),
                               Rectangle::new(Point::new(0, h), Size::new(1, 1)), Rectangle::new(Point::new(-1, 0), Size::new(2, 1)),
                               Rectangle::new(Point::new(0, -3), Size::new(1, 4)), Rectangle::new(Point::new(w - 1, h - 1), Size::new(2, 2)),
-                              Rectangle::new(Point::new(1024, 1024), Size::new(1024, 1024)), Rectangle::new(Point::new(w + 1, h + 1), Size::new(0, 0))] {
+                              Rectangle::new(Point::new(1024, 1024), Size::new(1024, 1024)), Rectangle::new(Point::new(w + 1, h + 1), Size::new(0, 0)),
+                              // position + size beyond the u32 range (the sum must not wrap back into the image)
+                              Rectangle::new(Point::new(1, 0), Size::new(u32::MAX, 1)), Rectangle::new(Point::new(0, 1), Size::new(1, u32::MAX)),
+                              Rectangle::new(Point::new(1, 1), Size::new(u32::MAX, u32::MAX)), Rectangle::new(Point::new(w.max(2), 0), Size::new(u32::MAX - w.max(2) as u32 + 2, 1)),
+                              Rectangle::new(Point::new(i32::MAX, i32::MAX), Size::new(u32::MAX, u32::MAX)), Rectangle::new(Point::new(0, 0), Size::new(u32::MAX, u32::MAX))] {
                         let mut t = NullTarget::new(CAP);
                         img.draw_sub_image(&mut t.color_converted(), &a).unwrap();
                         n += 1;
